@@ -1,0 +1,42 @@
+// Copyright Amazon.com, Inc. or its affiliates. All Rights Reserved.
+// SPDX-License-Identifier: Apache-2.0
+
+//! Verification hooks. Only compiled with `--cfg aws_s2n_quic_verif`.
+//!
+//! A thread-local line sink: instrumented code calls [`emit`] at the points a
+//! verification harness needs to observe; nothing happens unless a harness on the
+//! same thread has [`install`]ed a sink.
+
+use std::{cell::RefCell, fmt};
+
+type Sink = Box<dyn FnMut(&str)>;
+
+thread_local! {
+    static SINK: RefCell<Option<Sink>> = const { RefCell::new(None) };
+}
+
+/// Installs the sink for the current thread, replacing any previous one
+pub fn install(sink: Sink) {
+    SINK.with(|s| *s.borrow_mut() = Some(sink));
+}
+
+/// Removes the sink of the current thread
+pub fn uninstall() {
+    SINK.with(|s| *s.borrow_mut() = None);
+}
+
+/// Returns `true` if a sink is installed on the current thread
+pub fn enabled() -> bool {
+    SINK.with(|s| s.borrow().is_some())
+}
+
+/// Emits one line to the sink of the current thread, if any
+pub fn emit(line: fmt::Arguments) {
+    SINK.with(|s| {
+        if let Ok(mut guard) = s.try_borrow_mut() {
+            if let Some(sink) = guard.as_mut() {
+                sink(&line.to_string());
+            }
+        }
+    });
+}
